@@ -470,15 +470,39 @@ class World:
         x = self.ref(rec['x'])
         if x is None:
             return {'r': 'skip'}
-        if rec.get('rev'):
+        mode = rec.get('mode') or ('rev' if rec.get('rev') else 'plain')
+        m = list(x.model)
+        if mode == 'rev':
             _, items = self.run_call(lambda: [e for e in reversed(x.real)], 'ok', 'reversed iteration')
-            want = list(reversed(x.model))
+            want = list(reversed(m))
             self.probe('p_reversed_iteration')
+        elif mode == 'zip':
+            # two iterations of the same object in lock step
+            _, pairs = self.run_call(lambda: list(zip(x.real, x.real)), 'ok', 'zip(x, x)')
+            items = [p[k] for p in pairs for k in (0, 1)]
+            want = [e for e in m for _ in (0, 1)]
+            self.probe('p_overlapping_iterations')
+        elif mode == 'nested' and len(m) <= 6:
+            _, pairs = self.run_call(lambda: [(a, b) for a in x.real for b in x.real], 'ok',
+                                     'nested iteration')
+            items = [p[k] for p in pairs for k in (0, 1)]
+            want = [e for a in m for b in m for e in (a, b)]
+            self.probe('p_overlapping_iterations')
+        elif mode == 'interleaved' and len(m) >= 1:
+            # start one iteration, run a complete second one, then finish the first
+            def run():
+                it = iter(x.real)
+                first = next(it)
+                middle = [e for e in x.real]
+                return [first] + middle + [e for e in it]
+            _, items = self.run_call(run, 'ok', 'interleaved iterations')
+            want = [m[0]] + m + m[1:]
+            self.probe('p_overlapping_iterations')
         else:
             _, items = self.run_call(lambda: [e for e in x.real], 'ok', 'iteration')
-            want = list(x.model)
+            want = m
         if len(items) != len(want):
-            self.fail('result_value', what='iteration', why='number of items',
+            self.fail('result_value', what='iteration (%s)' % mode, why='number of items',
                       observed=len(items), expected=len(want))
         for it, e in zip(items, want):
             self.check_result(it, x.cname, [e], 'iteration item')
@@ -690,7 +714,7 @@ PROBES = ['slice_empty_result', 'slice_negative_step', 'slice_bound_beyond_len',
           'operand_shares_element_with_receiver', 'pop_empty', 'insert_beyond_end',
           'setitem_negative', 'get_negative', 'parent_into_child', 'child_into_parent',
           'rejected_then_accepted', 'alloc_zero', 'from_list_ok', 'special_values',
-          'reversed_iteration', 'op_on_len_ge_10', 'op_on_len_ge_17', 'op_on_len_ge_33',
+          'reversed_iteration', 'overlapping_iterations', 'op_on_len_ge_10', 'op_on_len_ge_17', 'op_on_len_ge_33',
           'from_list_bad_item_next_to_empty_item', 'extend_by_len_0',
           'extend_by_len_1', 'extend_by_len_2']
 
@@ -708,7 +732,7 @@ PROFILES = {
               'setitem': 3, 'append': 3},
     'construct': {'from_list': 4, 'empty': 3, 'alloc': 3, 'copy': 2, 'extend': 2, 'append': 2},
 }
-BASE_WEIGHTS = [('get', 2.0), ('getslice', 2.0), ('iter', 0.7), ('append', 1.5),
+BASE_WEIGHTS = [('get', 2.0), ('getslice', 2.0), ('iter', 1.0), ('append', 1.5),
                 ('extend', 1.5), ('insert', 1.5), ('pop', 1.5), ('del', 1.0),
                 ('setitem', 1.5), ('reverse', 0.7), ('clear', 0.3), ('from_list', 1.0),
                 ('empty', 0.4), ('alloc', 0.5), ('copy', 0.8), ('new', 0.6)]
@@ -819,7 +843,8 @@ def gen_step(world, cfg, rng):
     if op == 'copy':
         return {'op': 'copy', 'x': xi}
     if op == 'iter':
-        return {'op': op, 'x': xi, 'rev': rng.random() < 0.3}
+        return {'op': op, 'x': xi,
+                'mode': rng.choice(['plain', 'plain', 'rev', 'zip', 'nested', 'interleaved'])}
     if op in ('reverse', 'clear'):
         return {'op': op, 'x': xi}
     if op == 'get':
@@ -952,6 +977,8 @@ def nontrivial(ops, log):
 # simplification candidates for the minimiser: smaller / simpler versions of a record
 def simplify(rec):
     out = []
+    if rec.get('mode') not in (None, 'plain'):
+        out.append(dict(rec, mode='plain'))
     for key in ('keep', 'npint', 'as', 'rev', 'special'):
         if rec.get(key):
             r = dict(rec)
